@@ -25,4 +25,5 @@ def run(ctx, rep):
     recursion.rule_guard_passed_along(ctx, rep, "C11-R5c", only_pred=lambda q: q in ("context:Context._to_python", "context:Context._to_js"))
     pairing.rule_contextmanager_cleanup(ctx, rep, "C11-R6", where=lambda f: f.name in used, what=" used by the boundary converters")
     recursion.rule_path_entries_released(ctx, rep, "C11-R8", lambda q: q in ("context:Context._to_python", "context:Context._to_js"))
+    recursion.rule_persistent_path_balanced(ctx, rep, "C11-R9")
     rep.undecided += ["get(set(v)) == v for all value shapes (round-trip equality is a runtime property)"]
